@@ -191,6 +191,25 @@ class Prover:
                     t.ob.status = 'unsat'; t.ob.backend = t.backend; t.ob.smt2 = t.smt2
                     t.ob.steps.append(self.rec(t.ob, t))
             pending = [ob for ob in pending if ob.status != 'unsat']
+            # quantified facts handed to the solvers as quantifiers (E-matching): list / permutation reasoning needs chains of
+            # instances that one round of term instantiation does not produce; only 'unsat' is kept
+            tasks = []
+            for ob in pending:
+                try:
+                    hy, gl, nq = smt.expand_native(ob)
+                    if nq:
+                        tasks.append(Task(ob, 'native-quantifiers', hy, gl, [('z3-5.1.0', 20), ('cvc5-1.0.3', 20)]))
+                        import os as _os
+                        if _os.environ.get('VERIF_DUMP_NATIVE') and _os.environ['VERIF_DUMP_NATIVE'] in ob.name:
+                            open('/tmp/native_%d.smt2' % len(tasks), 'w').write(tasks[-1].smt2 or '')
+                except Exception:
+                    pass
+            run_tasks(tasks)
+            for t in tasks:
+                if t.status == 'unsat':
+                    t.ob.status = 'unsat'; t.ob.backend = t.backend + '+quantifiers'; t.ob.smt2 = t.smt2
+                    t.ob.steps.append(self.rec(t.ob, t))
+            pending = [ob for ob in pending if ob.status != 'unsat']
             # equational back end: polynomial identities modulo the hypothesis equalities (sympy, exact)
             for ob in pending:
                 if isinstance(ob.goal, QForall): continue
